@@ -28,6 +28,8 @@ var dtypes = []dtInfo{
 	{"f32", tensor.Float32, "float", 32}, {"f64", tensor.Float64, "float", 64},
 	{"c64", tensor.Complex64, "complex", 64}, {"c128", tensor.Complex128, "complex", 128},
 	{"str", tensor.String, "string", 0},
+	// an element type outside the "specialised" ones (no arithmetic, no ordering): data movement and serialisation only
+	{"uptr", tensor.Uintptr, "uint", 64},
 }
 
 func dtByName(n string) *dtInfo {
@@ -73,6 +75,8 @@ func (d *dtInfo) fromInt(n int64) interface{} {
 		return uint32(n)
 	case "u64":
 		return uint64(n)
+	case "uptr":
+		return uintptr(n)
 	case "f32":
 		return float32(n)
 	case "f64":
